@@ -160,11 +160,11 @@ def capacity_submodel(tier, seed, wd, acc, run_all, mkjob, notes):
     out = {"instances": [], "states": 0, "generated": 0, "sites_in_model": {}, "caps": CAPS}
     # one instance at a time with 8 TLC workers (the machine is shared); every instance is depth bounded, and a
     # timeout keeps the witnesses of the completed levels instead of failing the check
-    budget = 100 if tier == "quick" else 1200
+    budget = 100 if tier == "quick" else 700
     results = []
     for i in insts:
         left = budget - (time.time() - t0)
-        r = check_arb(i, wd, 8, max(20, min(60 if tier == "quick" else 420, int(left))), i["depth"][0 if tier == "quick" else 1])
+        r = check_arb(i, wd, 8, max(20, min(60 if tier == "quick" else 240, int(left))), i["depth"][0 if tier == "quick" else 1])
         results.append(r)
         if r.get("skipped"):
             notes.append("capacity sub-model: instance %s skipped: %s" % (i["name"], r["skipped"]))
